@@ -16,7 +16,7 @@ TOL_ABS = 1e-9
 class Contract:
     def __init__(self, target, cls, props, meta):
         self.target, self.cls, self.props, self.meta = target, cls, props, meta
-        self.name = cls.__name__
+        self.name = meta.get('name', cls.__name__)
 
     def fn(self, name):
         f = self.cls.__dict__.get(name)
@@ -86,7 +86,10 @@ def eq(a, b):
 
 
 def implies(a, b):
-    return (not a) or bool(b)
+    """b may be a zero-argument callable; it is then only evaluated when a holds (for guarded attribute access)."""
+    if not a:
+        return True
+    return bool(b() if callable(b) else b)
 
 
 def iff(a, b):
